@@ -62,6 +62,10 @@ func (o dbOp) String() string {
 		return fmt.Sprintf("Put(%s,%s)", dbKeyNames[o.K], dbValNames[o.V])
 	case "del":
 		return fmt.Sprintf("Delete(%s)", dbKeyNames[o.K])
+	case "putrot":
+		return fmt.Sprintf("Put(%s,%s)+Flush", dbKeyNames[o.K], dbValNames[o.V])
+	case "delrot":
+		return fmt.Sprintf("Delete(%s)+Flush", dbKeyNames[o.K])
 	case "rot":
 		return "Rotate+Flush"
 	case "cmp":
@@ -131,18 +135,30 @@ func newSession(dir string, cfgs []dbCfg, init int, r *core.Result, viol func(si
 func (s *dbSession) apply(i int, op dbOp) bool {
 	s.r.Trans++
 	switch op.Op {
-	case "put":
+	case "put", "putrot":
 		if err := s.db.Put(string(dbKeys[op.K]), string(dbVals[op.V])); err != nil {
 			s.viol("", "op %d %v returned %v", i, op, err)
 			return false
 		}
 		s.ref[string(dbKeys[op.K])] = dbVals[op.V]
-	case "del":
+		if op.Op == "putrot" {
+			if err := s.db.VerifRotateAndWait(); err != nil {
+				s.viol("", "op %d forced rotation failed: %v", i, err)
+				return false
+			}
+		}
+	case "del", "delrot":
 		if err := s.db.Delete(string(dbKeys[op.K])); err != nil {
 			s.viol("", "op %d %v returned %v", i, op, err)
 			return false
 		}
 		delete(s.ref, string(dbKeys[op.K]))
+		if op.Op == "delrot" {
+			if err := s.db.VerifRotateAndWait(); err != nil {
+				s.viol("", "op %d forced rotation failed: %v", i, err)
+				return false
+			}
+		}
 	case "churn":
 		n := churnN
 		if s.cfgs[s.cfg].Mem > 0 && s.cfgs[s.cfg].Mem < 100 {
